@@ -21,7 +21,7 @@ func Spec_Find(function string, params interface{}, functions []SatisfactionLeve
 	for _, f := range functions {
 		if f.Identifier() == function {
 			functionParams := f.BlankParams()
-			utils.DecodeToStruct(params, functionParams)
+			utils.Spec_DecodeToStruct(params, functionParams)
 			return functionParams
 		}
 	}
